@@ -182,6 +182,19 @@ CHECKS = {
         technique="Lean 4 proof (non-interference by induction, order independence) + bit-for-bit differential runs of real scenario pairs",
         ref="5/C10",
     ),
+    "C02": dict(
+        text="Theorems (Lean 4) over the first-failure cascade that collectObservations/attemptObservation/isVisible implement, for ANY list of constraint checks: a reported "
+             "observation satisfies every constraint; a miss states the reason of a constraint that really fails (and all earlier ones hold); if all hold the target is observed; "
+             "exactly one record for the primary target; a sensor that cannot slew reports one slew miss and nothing else (no serendipitous observation about a pointing it never "
+             "reached); serendipitous records are observations only, of offered targets that satisfy every constraint, and none when disabled. Tied to the code by running the real "
+             "Radar/AdvRadar/Optical collectObservations on ground and space hosts and comparing outcome and reason with the cascade fed by an INDEPENDENT evaluation of each "
+             "constraint (vector geometry for line of sight, atan2 angles for both field-of-view shapes across the north seam, masks incl. wrapping ones, range limits, slew budget, "
+             "limb cone), plus the reported measurement against plain trigonometry on the slant-range vector (noise-free equality, 6.5 sigma with noise).",
+        note=BASE_TB + "photometric constraints (solar flux, visual magnitude, galactic exclusion, lighting) and the radar range equation are evaluated with the code's own helpers: "
+             "their place in the cascade is checked, their physics is not re-derived; cases with a deciding constraint within 1e-9 of its boundary are skipped and counted.",
+        technique="Lean 4 proof over an executable cascade model + differential correspondence against an independent geometric evaluation",
+        ref="5/C02",
+    ),
     "C11": dict(
         text="Theorems (Lean 4, corollaries of C04/C05 for the Terrestrial model): the state the site reports, converted back with the reduction of the same instant, is exactly "
              "the configured Earth-fixed position at rest; the anchor computed at construction is the configured geodetic point; the inertial velocity is PNR(omega x W r) with "
